@@ -32,6 +32,11 @@ use serde::{Deserialize, Serialize};
 use std::cell::RefCell;
 use std::collections::HashMap;
 
+/// Fuzzing mode (E4, sanitizers with leak detection): do not perform the operations the model
+/// predicts to run into finding F9a (they are skipped and counted), instead of performing them and
+/// forgetting the guards concerned.
+pub static AVOID_F9A: std::sync::atomic::AtomicBool = std::sync::atomic::AtomicBool::new(false);
+
 pub const F9A_MARK: &str = "[F9a: the borrow slot of a guard of one pointer class (strong/weak) was paid with a count of the other class]";
 
 #[derive(Clone, Copy, Debug, PartialEq, Eq, Serialize, Deserialize)]
@@ -193,6 +198,7 @@ pub struct MStats {
     pub cross_class_exposures: usize,
     pub weak_target_died: usize,
     pub debts_taken_over: usize,
+    pub f9a_avoided: usize,
     pub empties: usize,
     pub max_guards: usize,
     pub family_rc: usize,
@@ -410,6 +416,14 @@ where
         v
     }
 
+    fn avoid(&mut self, old: Option<usize>, strong: bool) -> bool {
+        if AVOID_F9A.load(std::sync::atomic::Ordering::Relaxed) && old.is_some() && self.guards.iter().any(|g| g.alloc == old && g.in_debt && g.strong != strong) {
+            self.stats.f9a_avoided += 1;
+            return true;
+        }
+        false
+    }
+
     /// A container of class `strong` is about to give `old` up: its debt walk pays every slot that
     /// holds the address. Guards of the same class become owners (that is the design); borrowing
     /// guards of the *other* class on the same allocation are the ones finding F9a is about.
@@ -527,6 +541,15 @@ where
     }
 
     fn drop_guard(&mut self, i: usize) -> Result<(), String> {
+        {
+            let g = &self.guards[i];
+            if !g.in_debt && g.may_have_slot && g.alloc.is_some() {
+                let (a, st) = (g.alloc, g.strong);
+                if self.avoid(a, st) {
+                    return Ok(());
+                }
+            }
+        }
         let r = self.guards.swap_remove(i);
         if let Some(a) = r.alloc {
             if r.strong {
@@ -622,6 +645,10 @@ where
             self.stats.empties += 1;
         }
         let old = self.cval[c];
+        if self.avoid(old, strong) {
+            self.release_fresh(v, a);
+            return self.check_all();
+        }
         let n_s: Option<F::S> = if strong { a.map(|a| self.strong_of(a)) } else { None };
         let n_w: F::W = match a {
             Some(a) if !strong => F::downgrade(&self.strong_of(a)),
@@ -699,6 +726,10 @@ where
         let (a, v) = self.make_for(kind, new);
         let old = self.cval[c];
         let success = old == cur_a;
+        if success && self.avoid(old, strong) {
+            self.release_fresh(v, a);
+            return self.check_all();
+        }
         let cur_s: Option<F::S> = if strong { cur_a.map(|a| self.strong_of(a)) } else { None };
         let cur_w: F::W = match cur_a {
             Some(a) if !strong => F::downgrade(&self.strong_of(a)),
